@@ -14,12 +14,9 @@ include!("count.rs");
 #[cfg(kani)]
 mod proofs {
     use super::*;
-    const N: usize = 10; // spans the bitmap byte boundary
-    #[kani::proof]
-    #[kani::unwind(12)]
-    fn counts_true_and_present_rows() {
+    fn run<const N: usize, const B: usize>() {
         let data: [u8; N] = kani::any();
-        let present: [u8; 2] = kani::any();
+        let present: [u8; B] = kani::any();
         let n: usize = kani::any();
         kani::assume(n <= N);
         let got = non_null_element_count(&Op { input: In }, &Scratch { data: &data[..n], present: &present });
@@ -28,6 +25,12 @@ mod proofs {
         kani::cover!(got > 0 && got < n, "vacuity: some rows counted, some not");
         assert!(got == want, "[count-true-and-present] the stand-in column has one row per filter row that is non-zero and not NULL");
     }
+    #[kani::proof]
+    #[kani::unwind(12)]
+    fn counts_true_and_present_rows() { run::<10, 2>(); } // spans the bitmap byte boundary
+    #[kani::proof]
+    #[kani::unwind(20)]
+    fn counts_true_and_present_rows_18() { run::<18, 3>(); } // thorough tier: two byte boundaries
     #[kani::proof]
     fn vx_canary() {
         let x: u8 = kani::any();
